@@ -969,15 +969,15 @@ def norm_facts(f, n, loop_conditions=True, all_locals=False, canon=False):
 
 def reach_calls(F, f, want, depth=2):
     """calls satisfying want(call) that f executes itself or through helpers whose bodies are exported.
-    Yields (anchor, call, resolve): anchor is the call node in f (the call itself or the helper call leading to
+    Yields (anchor, call, resolve, owner): anchor is the call node in f (the call itself or the helper call leading to
     it), resolve(expr) rewrites an argument expression of `call` into f's terms (helper parameters replaced by
-    the arguments f passes)."""
+    the arguments f passes), owner is the function whose body contains `call`."""
     by_id = getattr(F, "_by_id", {})
     for c in f.walk():
         if c["k"] not in ("CallExpr", "CXXMemberCallExpr", "CXXConstructExpr", "CXXOperatorCallExpr"):
             continue
         if want(c):
-            yield c, c, (lambda e: e)
+            yield c, c, (lambda e: e), f
             continue
         g = by_id.get(c.get("calleeId"))
         if g is None or g is f or depth <= 0 or g.cfg is None:
@@ -986,8 +986,8 @@ def reach_calls(F, f, want, depth=2):
         if c["k"] == "CXXOperatorCallExpr" and c.get("op") == "()":
             args = kids(c)[2:]               # lambda call: callee object first
         binding = {p["declId"]: strip(a) for p, a in zip(g.params, args)}
-        for _, c2, res2 in reach_calls(F, g, want, depth - 1):
-            yield c, c2, (lambda e, res2=res2, binding=binding: _subst_params(res2(e), binding))
+        for _, c2, res2, owner in reach_calls(F, g, want, depth - 1):
+            yield c, c2, (lambda e, res2=res2, binding=binding: _subst_params(res2(e), binding)), owner
 
 
 class _CaseReturn(Exception):
